@@ -298,6 +298,9 @@ def main(argv=None):
         rs, info = engine_f.run_spans(prop, S, outdir, rebaseline=False)
         results += rs
         infos += info
+        rs, info = engine_f.run_pairs(prop, S, outdir)
+        results += rs
+        infos += info
     if "S" in engines:
         import engine_s
 
